@@ -21,6 +21,7 @@ cargo test --offline --test demo 2>&1 | grep -E "^test result|panicked|error(\[|
 cd /verif
 git -C /repo worktree remove --force $WT
 echo "== checks on /repo with the change applied"
+unset CARGO_TARGET_DIR
 git -C /repo apply $SRC/patch.diff
 for p in "$@"; do ./check $p | grep -E "^(VIOLATION|OK|KNOWN)"; done
 git -C /repo checkout -- .
